@@ -597,6 +597,9 @@ impl OwnedValue {
         op: ArithmeticOp,
         right: &OwnedValue,
     ) -> Option<OwnedValue> {
+        if matches!(left, OwnedValue::Null) || matches!(right, OwnedValue::Null) {
+            return Some(OwnedValue::Null);
+        }
         match op {
             ArithmeticOp::Plus => match (left, right) {
                 (OwnedValue::Int(a), OwnedValue::Int(b)) => a.checked_add(*b).map(OwnedValue::Int),
